@@ -346,7 +346,8 @@ class MediaCombineDisallowed(Exception):
         return self.args[0]
 
     def _combinable(rule):
-        combinable = rule.COMMENT, rule.STYLE_RULE, rule.IMPORT_RULE
+        # an @import still present was kept and cannot be put into @media
+        combinable = rule.COMMENT, rule.STYLE_RULE
         return rule.type in combinable
 
 
